@@ -318,6 +318,13 @@ class Effects:
                 fn.gw[k] = w
                 changed = True
         new_ret = interp.ret if interp.ret is not None else FRESH
+        # a function annotated to return an immutable value type (`-> Dtype`, `-> bool`, `-> str | None` ...) hands out values
+        # that nobody can write to: where they come from is irrelevant (rule IMM checks the immutability of those classes)
+        rann = getattr(fn.node, "returns", None)
+        if rann is not None:
+            rtext = ast.unparse(rann).strip('"').strip("'")
+            if rtext and all(any(part.strip().startswith(i) for i in IMMUTABLE_ANN) for part in rtext.split("|")):
+                new_ret = FRESH
         if not fn.ret_known or new_ret != fn.ret:
             if fn.ret_known:
                 new_ret = join(fn.ret, new_ret)
